@@ -80,7 +80,7 @@ def detect(d, props=None, seed=0):
                 except Exception:
                     pass
         key = p if (TIER == "quick" and seed == 0) else f"{p}:{TIER}:{seed}"
-        det[key] = {"prop": p, "exit": s.returncode, "violations": len(viol), "sigs": sigs, "last": (s.stdout.strip().splitlines() or [""])[-1][:200], "wall_s": round(time.time() - t0), "seed": seed, "tier": TIER}
+        det[key] = {"prop": p, "exit": s.returncode, "violations": len(viol), "sigs": sigs, "last": (s.stdout.strip().splitlines() or [""])[-1][:200], "wall_s": round(time.time() - t0), "seed": seed, "tier": TIER, "verif_commit": sh("git -C /verif rev-parse --short HEAD").stdout.strip(), "repo_head": sh("git -C /repo rev-parse --short HEAD").stdout.strip()}
         print(d, p, "exit", s.returncode, "violations", len(viol), sigs[:2], det[key]["last"], flush=True)
     meta["detection"] = det
     json.dump(meta, open(f"{d}/meta.json", "w"), indent=1)
